@@ -173,6 +173,9 @@ impl Prop for C16 {
     fn id(&self) -> &'static str {
         "C16"
     }
+    fn canary(&self) -> bool {
+        true
+    }
     fn rule(&self) -> String {
         "cases = 2-4 prepared statements with 1-12 parameters and a history of 2-30 executions; each execution picks a statement and either rebinds (new-params-bound = 1 with freshly generated types, or with the bound types changed only in some signedness flags or in a single position) or reuses (flag = 0, no type block; the first execution after a prepare always binds, as the protocol requires); values are encoded per the types in force in the reference model types[stmt]. One execution in six is answered with an error instead of OK; what is bound persists all the same. Oracle: the shim must see exactly the model's (type code, ValueInner) lists for every execution.  In 1 of 5 executions the shim pulls only a prefix of the parameters (possibly none) from the iterator; what that execution bound must persist all the same. One execution in six has one of its parameters streamed beforehand with COM_STMT_SEND_LONG_DATA (types must survive an execution that consumed long data). One history in ten has the shim hand out an id that is still open for a new statement (same parameter count) in mid-history, after which the next execution binds afresh; one in eight ends with such a new statement being executed *without* binding types (parameters encoded per the old statement's types), which must never reach the shim. Non-trivial = some reuse happens after a rebind of a *different* statement (so a single global type table would be caught), or a reuse follows a rebind to different types of the same statement.".into()
     }
